@@ -1,6 +1,60 @@
-(* Props/C11.v -- placeholder until the theorems are stated; see Pwl/Cache.v *)
-From AT Require Import Num Vec Aff Farkas FM Equiv PTree Cache.
-Theorem C11_mirror_points_sound : forall nus eps rs p, Forall (fun nu => 0 < nu) nus -> 0 <= eps -> length nus = length rs ->
-  Forall (fun nr => accept_row (fst nr) eps (snd nr) p) (combine nus rs) -> in_rows rs p.
-Proof. exact mirror_points_sound. Qed.
-Print Assumptions C11_mirror_points_sound.
+(* Props/C11.v -- C11: pruning is fail-safe when the LP solver misbehaves.  Property theorems only.
+   The C03 / C05 theorems are stated for EVERY oracle; the only answers they constrain are Infeasible ones.  An
+   Error, an Unbounded, or an Optimal point outside the polytope at any call or calls is therefore already
+   covered: this file instantiates them for an arbitrarily corrupted oracle and adds the "only less pruning"
+   clause.  (Well-formedness under faults -- no panic, tree stays well-formed -- is C04's preservation theorem,
+   which is also stated for every oracle.) *)
+From AT Require Import Num Vec Aff PTree Cells Abs Cache Elim ElimEval ElimCache CPrune CPruneEval CPruneCache ElimExample ElimFault.
+
+(* faulty o hit bad: at the calls selected by [hit] the answer is replaced by [bad k] -- an Error, an Unbounded,
+   or an Optimal with an arbitrary point, never Infeasible (not_inf) *)
+
+(* the represented function is unchanged under any fault plan *)
+Theorem C11_elim_function_unchanged : forall o hit bad tol t x,
+  osound o x -> (forall k, not_inf (bad k)) -> marks_kids x [] t ->
+  cev (fst (elim (faulty o hit bad) tol t)) x = cev t x.
+Proof. exact fault_elim_function. Qed.
+Theorem C11_compose_function_unchanged : forall o hit bad tol t L x,
+  osound o x -> (forall k, not_inf (bad k)) -> bin2 L -> cbin t -> terms_ok comp_schema t -> marks_ok x [] t ->
+  cev (fst (compose_prune (faulty o hit bad) tol t L)) x = eval (compose (erase t) L) x.
+Proof. exact fault_compose_function. Qed.
+
+(* no unsound witness or verdict is cached under any fault plan: a bogus Optimal point is re-checked with
+   contains() before it is stored, the repaired point likewise *)
+Theorem C11_no_unsound_witness : forall o hit bad tol t,
+  mir_sound o tol -> wit_ok tol [] t -> wit_ok tol [] (fst (elim (faulty o hit bad) tol t)).
+Proof. exact fault_no_unsound_witness. Qed.
+Theorem C11_no_unsound_verdict : forall o hit bad tol t x,
+  osound o x -> (forall k, not_inf (bad k)) -> marks_kids x [] t ->
+  marks_kids x [] (fst (elim (faulty o hit bad) tol t)).
+Proof. exact fault_no_unsound_verdict. Qed.
+Theorem C11_compose_caches : forall o hit bad tol s L t q k x,
+  wit_ok tol q t -> marks_ok x q t ->
+  wit_ok tol q (fst (cprune (faulty o hit bad) tol s L t q k)) /\
+  marks_ok x q (fst (cprune (faulty o hit bad) tol s L t q k)).
+Proof. exact fault_compose_caches. Qed.
+
+(* the only permitted effect is less pruning: an answer other than Infeasible never produces an Infeasible verdict,
+   so it never removes an edge nor forwards a decision -- a corrupted call classifies as Feasible or Indeterminate *)
+Theorem C11_fault_never_prunes : forall o tol q k s k',
+  phase_two o tol q k = (s, k') -> o_lp o (k_lp k) q <> LInf -> is_infeas s = false.
+Proof. exact fault_never_prunes. Qed.
+Theorem C11_fault_keeps_edge : forall o tol top st q k,
+  o_lp o (k_lp k) q <> LInf -> st <> Infeas -> fst (explore o tol top st q k) = true.
+Proof. exact fault_keeps_edge. Qed.
+
+Example C11_nonvacuous :
+  let o := faulty ex_o (fun k => Nat.eqb k 3) (fun _ => LErr) in
+  (forall x, osound o x) /\ (forall x, cev (fst (elim o 0 ex_t)) x = cev ex_t x) /\
+  (* the Error at the call that would have found the infeasible path: nothing is pruned *)
+  erase (fst (elim o 0 ex_t)) = erase ex_t.
+Proof. exact fault_example. Qed.
+
+Print Assumptions C11_elim_function_unchanged.
+Print Assumptions C11_compose_function_unchanged.
+Print Assumptions C11_no_unsound_witness.
+Print Assumptions C11_no_unsound_verdict.
+Print Assumptions C11_compose_caches.
+Print Assumptions C11_fault_never_prunes.
+Print Assumptions C11_fault_keeps_edge.
+Print Assumptions C11_nonvacuous.
